@@ -20,7 +20,7 @@ pub static DEF: CheckDef = CheckDef {
     rule: "uses: every admissible ordered shape pair (rank 1..4, dims 1..3) with a rotating choice of broadcasting \
            operation {add,sub,mul,div,axpy}, use pattern (operand used once; twice by the same operation; twice by \
            different operations; three times through intermediates; squared then broadcast) and 1..3 passes; rand: \
-           pairs up to rank 5 / dim 5; optimizer: three parameters, the first one broadcast and used twice, updated \
+           pairs up to rank 5 / dim 5; matmul-term: batched / transposed matmul with a tracked additive term of every documented form; optimizer: three parameters, the first one broadcast and used twice, updated \
            by GradientDescent after a real pass - every parameter must keep its own dimensions and move by its own \
            gradient. Integer data => exact comparison with the forward-mode reference (division: scaled tolerance). \
            Non-trivial = some tracked operand was actually broadcast (its shape differs from the result's) and \
@@ -31,7 +31,7 @@ pub static DEF: CheckDef = CheckDef {
 };
 
 fn families(t: Tier) -> Vec<(&'static str, u64)> {
-    vec![("uses", t.n(14_400, 14_400 * 8)), ("rand", t.n(10_000, 200_000)), ("optimizer", t.n(2_000, 100_000))]
+    vec![("uses", t.n(14_400, 14_400 * 8)), ("rand", t.n(10_000, 200_000)), ("optimizer", t.n(2_000, 100_000)), ("matmul-term", t.n(4_000, 100_000))]
 }
 fn floors(_t: Tier) -> Vec<(&'static str, u64)> {
     vec![("evaluations", 9_000), ("broadcast_gradients_compared", 6_000), ("multi_use_cases", 3_000), ("optimizer_updates_checked", 1_500)]
@@ -83,6 +83,9 @@ pub fn build(da: &[usize], db: &[usize], va: &[f64], vb: &[f64], mask: &[bool], 
 pub fn run_case(ctx: &mut Ctx, fam: &str, k: u64, r: &mut Rng) {
     if fam == "optimizer" {
         return run_optimizer(ctx, r);
+    }
+    if fam == "matmul-term" {
+        return run_matmul_term(ctx, k, r);
     }
     let (da, db): (Vec<usize>, Vec<usize>);
     let sel: usize;
@@ -146,6 +149,39 @@ pub fn run_case(ctx: &mut Ctx, fam: &str, k: u64, r: &mut Rng) {
             &format!("C03|{}|{}|{}", op.family(), PATTERNS[pattern], cls),
             format!("{}\nprogram: {}\npasses: {} seed: {:?}", f.detail, p.pretty(), passes, seed),
         );
+    }
+}
+
+/// The additive term of matmul is broadcast over rows and batches: its gradient must have the term's own shape and be
+/// the sum of the adjoint over the broadcast positions ([cols], [1,cols], [rows,cols] under a batch, single element).
+fn run_matmul_term(ctx: &mut Ctx, k: u64, r: &mut Rng) {
+    let mut case = super::c02::gen_matmul(r, k);
+    if case.dims.len() < 3 {
+        return;
+    }
+    // the term is tracked; the factors at random
+    case.mask = vec![r.chance(1, 2), r.chance(1, 2), true];
+    let p = case.program();
+    let rr = match eval_ref_plain(&p) {
+        Some(x) => x,
+        None => return,
+    };
+    let root = p.root();
+    let seed = rand_seed(r, rr.vals[root].v.len());
+    let passes = 1 + r.below(2);
+    let o = run_and_check(&p, &seed, &CheckOpts { passes, ..Default::default() });
+    let bc = case.dims[2] != rr.vals[root].dims;
+    ctx.case(&format!("{}|{}|p{}|{}", p.desc(), mask_name(&case.mask), passes, seed.name()), bc && o.nonzero_grads > 0);
+    ctx.hist("cells", &format!("matmul-term|{}", case.cell));
+    if bc {
+        ctx.count("broadcast_gradients_compared", 1);
+    }
+    ctx.count("gradients_compared", o.grads_compared);
+    ctx.sample("matmul-term", || format!("{} passes={} seed={:?}", p.pretty(), passes, seed));
+    ctx.meta(|| format!("{} {}", p.desc(), o.meta));
+    for f in &o.failures {
+        let cls = if f.kind.ends_with("panic") { format!("{}:{}", f.kind, panic_class(f.detail.split("panicked: ").nth(1).unwrap_or(""))) } else { f.kind.clone() };
+        ctx.violation(&format!("C03|matmul-term|{}|{}", case.cell.split('|').skip(2).collect::<Vec<_>>().join("|"), cls), format!("{}\nprogram: {}\nseed: {:?}", f.detail, p.pretty(), seed));
     }
 }
 
